@@ -112,7 +112,9 @@ def oracle(c, r, cases, res):
     if tin is None or tout is None:
         return 'output cannot be scanned' if tout is None else None
     if c.get('expected_order_text'):
-        d = loadlib.first_token_difference(loadlib.scan_tokens(c['expected_order_text']), tout)
+        # the expected text is rendered in another layout: the raw text of an A2ML block is compared up to white space here
+        squeeze = lambda toks: [(t[0], ' '.join(t[1].split())) + tuple(t[2:]) if t[0] == 'a2ml' else t for t in toks]
+        d = loadlib.first_token_difference(squeeze(loadlib.scan_tokens(c['expected_order_text'])), squeeze(tout))
         if d is not None:
             return 'position-restricted children are written neither in file order nor in position order: ' + d[1]
     elif loadlib.reordered_blocks(r.node):
